@@ -53,6 +53,17 @@ def as_multiset(k, s, nd=9):
     return sorted(zip(np.round(k, nd).tolist(), np.round(s, nd + 3).tolist()))
 
 
+def same_multiset(k1, s1, k2, s2) -> bool:
+    """the pairs (|k|, S) agree as multisets, up to rounding: sorted by (|k| rounded, S) and compared with a tolerance
+    (comparing ROUNDED values for equality raises false alarms when a value sits on a rounding boundary: VERIF_SEED=11)"""
+    k1, s1, k2, s2 = (np.asarray(x, dtype=float).ravel() for x in (k1, s1, k2, s2))
+    if k1.shape != k2.shape or s1.shape != s2.shape:
+        return False
+    o1 = np.lexsort((s1, np.round(k1, 9)))
+    o2 = np.lexsort((s2, np.round(k2, 9)))
+    return bool(np.allclose(k1[o1], k2[o2], rtol=1e-12, atol=1e-12) and np.allclose(s1[o1], s2[o2], rtol=1e-9, atol=1e-12))
+
+
 def run_cases(ck: Check, n_small: int, n_large: int):
     from pde import CartesianGrid, ScalarField
     from droplets.image_analysis import get_structure_factor
@@ -99,14 +110,14 @@ def run_cases(ck: Check, n_small: int, n_large: int):
         k4, s4 = sf_raw(ScalarField(grid, np.flip(data, axis=ax)))
         if not np.allclose(s4, s, rtol=1e-9, atol=1e-13):
             # reflection index -> -index maps each wave vector to its mirror image: compare as multisets of (|k|, sf)
-            if as_multiset(k4, s4) != as_multiset(k, s):
+            if not same_multiset(k4, s4, k, s):
                 ck.fail(f"structure factor changes when the field is reflected along axis {ax}", {**sig, "check": "sf_reflect_invariant"}, {**case, "axis": ax})
         if dim >= 2:
             perm = list(range(dim))
             rng.shuffle(perm)
             g2 = CartesianGrid([grid.axes_bounds[a] for a in perm], [shape[a] for a in perm], periodic=True)
             k5, s5 = sf_raw(ScalarField(g2, np.transpose(data, perm)))
-            if as_multiset(k5, s5, 8) != as_multiset(k, s, 8):
+            if not same_multiset(k5, s5, k, s):
                 ck.fail(f"structure factor changes when the axes are permuted {perm} together with the grid", {**sig, "check": "sf_axis_perm_invariant"}, {**case, "perm": perm})
         lam = rng.choice([0.01, 0.5, 3.0, 100.0])
         g3 = CartesianGrid([[b[0] * lam, b[1] * lam] for b in grid.axes_bounds], shape, periodic=True)
